@@ -371,10 +371,8 @@ fn to_range(r: &(u64, u64)) -> RangeInclusive<VarInt> {
 }
 
 impl<'a> frame::ack::AckRanges for RefRanges<'a> {
-    type Iter = std::iter::Map<
-        std::slice::Iter<'a, (u64, u64)>,
-        fn(&(u64, u64)) -> RangeInclusive<VarInt>,
-    >;
+    type Iter =
+        std::iter::Map<std::slice::Iter<'a, (u64, u64)>, fn(&(u64, u64)) -> RangeInclusive<VarInt>>;
     fn ack_ranges(&self) -> Self::Iter {
         self.0.iter().map(to_range as fn(&(u64, u64)) -> _)
     }
@@ -468,11 +466,9 @@ pub fn encode_frame_value(f: &Frame) -> Result<Option<Encoded>, Panicked> {
                 connection_id: cid,
                 stateless_reset_token: token,
             }),
-            Frame::RetireConnectionId { seq } => {
-                F::RetireConnectionId(frame::RetireConnectionId {
-                    sequence_number: vi(*seq),
-                })
-            }
+            Frame::RetireConnectionId { seq } => F::RetireConnectionId(frame::RetireConnectionId {
+                sequence_number: vi(*seq),
+            }),
             Frame::PathChallenge { data } => F::PathChallenge(frame::PathChallenge { data }),
             Frame::PathResponse { data } => F::PathResponse(frame::PathResponse { data }),
             Frame::ConnectionClose {
@@ -624,8 +620,7 @@ pub fn decode_datagram(
                                 },
                                 Ok(clear) => Unprotected::Ok {
                                     pn,
-                                    header_len: (end - (total - before))
-                                        - clear.payload.len(),
+                                    header_len: (end - (total - before)) - clear.payload.len(),
                                     payload: clear.payload.as_less_safe_slice().to_vec(),
                                 },
                             }
@@ -705,9 +700,8 @@ pub enum EncodedPacket {
 
 pub fn encode_packet(s: &PacketSpec) -> Result<EncodedPacket, Panicked> {
     use s2n_quic_core::packet::{
-        encoding::PacketEncodingError as E, handshake::Handshake, initial::Initial,
-        retry::Retry, short::Short, version_negotiation::VersionNegotiation, zero_rtt::ZeroRtt,
-        KeyPhase,
+        encoding::PacketEncodingError as E, handshake::Handshake, initial::Initial, retry::Retry,
+        short::Short, version_negotiation::VersionNegotiation, zero_rtt::ZeroRtt, KeyPhase,
     };
     guarded(|| {
         let mut buf = vec![CANARY; s.capacity + 16];
@@ -868,7 +862,11 @@ pub fn pn_truncate(pn: u64, largest_acked: u64) -> Result<Option<Truncated>, Pan
         for b in &e.bytes {
             value = value << 8 | *b as u64;
         }
-        assert_eq!(e.bytes.len(), t.len().bytesize(), "vq-c05: truncated pn size");
+        assert_eq!(
+            e.bytes.len(),
+            t.len().bytesize(),
+            "vq-c05: truncated pn size"
+        );
         Some(Truncated {
             len: e.bytes.len(),
             value,
@@ -971,9 +969,8 @@ pub fn tp_decode(
                     .original_destination_connection_id
                     .map(|c| c.as_bytes().to_vec());
                 v.stateless_reset_token = p.stateless_reset_token.map(|t| t.into_inner());
-                v.retry_source_connection_id = p
-                    .retry_source_connection_id
-                    .map(|c| c.as_bytes().to_vec());
+                v.retry_source_connection_id =
+                    p.retry_source_connection_id.map(|c| c.as_bytes().to_vec());
                 v.preferred_address = p.preferred_address.map(|a| {
                     // rebuilt field by field from the accessors (not via the s2n encoder)
                     let mut o = Vec::new();
